@@ -282,8 +282,43 @@ def adjacent_blocks(report, scen, rng):
         report.count("adjacent_block_filters")
 
 
+def same_value_two_names(report, scen, rng):
+    """events that carry one value under two indexed tag names (["E", x] + ["e", x], ["p", k] + ["e", k] ...): a filter on either
+    name alone, and the same filter narrowed by a condition that makes the planner enter through another index — narrowing
+    must not add results"""
+    vals = [rng.randbytes(32).hex(), rng.choice(["v", "abc"])]
+    names = rng.sample(["e", "p", "E", "t", "a"], 3)
+    evs = []
+    for i in range(rng.randint(3, 7)):
+        v = rng.choice(vals)
+        tags = [[n, v] for n in rng.sample(names, rng.choice([1, 2, 2, 3]))]
+        evs.append({"id": gen.mkid(rng), "pubkey": rng.choice(gen.AUTHORS[:2]), "created_at": gen.T0 + i * 7, "kind": rng.choice([1, 7]),
+                    "tags": tags, "content": "", "sig": "00" * 64})
+    scen.load(evs)
+    ids = sorted(e["id"] for e in evs)
+    for n in names:
+        for v in vals:
+            f = {"#" + n: [v]}
+            others = [m for m in names if m != n]
+            for g in ({**f, "ids": ids}, {**f, "#" + others[0]: [v]}, {**f, "kinds": [1, 7]}, {**f, "authors": gen.AUTHORS[:2]}):
+                wide, narrow = ask_both(scen, f), ask_both(scen, g)
+                for w, nr in zip(wide, narrow):
+                    if w is None or nr is None or w["ids"] is None or nr["ids"] is None or not (untruncated(w) and untruncated(nr)):
+                        continue
+                    extra = inside(nr, f, g) - set(w["ids"])
+                    if extra:
+                        report.property_failure("%s: narrowing %r to %r added %d results" % (w["backend"], f, g, len(extra)),
+                                                {"backend": w["backend"], "filters": [f], "narrow": g, "events": evs, "kind": "monotone"}, classify(w))
+                    report.case(("monotone", w["backend"], repr(f), repr(g), len(evs)), nontrivial=len(nr["ids"]) > 0,
+                                sample={"backend": w["backend"], "wide": f, "narrow": g, "wide_n": len(w["ids"]), "narrow_n": len(nr["ids"])})
+                    report.count("pairs_monotone_" + w["backend"])
+    report.count("same_value_two_names_stores")
+
+
 def run_case(report, scen, rng):
     adjacent_blocks(report, scen, rng)
+    if rng.random() < 0.5:
+        same_value_two_names(report, scen, rng)
     for _ in range(2):
         evs, f = multiindex_store(rng)
         scen.load(evs)
